@@ -87,6 +87,12 @@ type StreamProfile struct {
 type PeerOp struct {
 	AtMs int64     `json:"at_ms"`
 	Pkt  refsn.Pkt `json:"pkt"`
+	// NoWait: send at AtMs even when the reply to an earlier request (CONNACK, the DISCONNECT that
+	// confirms a sleep, the wake-up PINGRESP) has not arrived yet. By default a raw peer behaves like a
+	// client in this one respect: it holds its script (all later ops shift) until that reply is in,
+	// up to 20 s — a gateway that is slow for a while (stalls) must not turn a conforming script into
+	// an out-of-turn one.
+	NoWait bool `json:"no_wait,omitempty"`
 }
 
 // PeerPolicy: how a raw peer reacts to what the gateway sends.
@@ -100,6 +106,7 @@ type PeerPolicy struct {
 	WillQoS    uint8  `json:"will_qos,omitempty"`
 	WillRetain bool   `json:"will_retain,omitempty"`
 	SilentAtMs int64  `json:"silent_at_ms,omitempty"` // peer stops sending (and reacting) forever (0 = never)
+	NoWait     bool   `json:"no_wait,omitempty"`      // all ops are sent at their times (out-of-turn traffic on purpose)
 	// KeepAliveMs > 0: a compliant peer sends PINGREQ whenever it has sent nothing for this long while active.
 	KeepAliveMs int64 `json:"keepalive_ms,omitempty"`
 }
